@@ -331,13 +331,16 @@ func main() {
 			round   int
 			vvClass string
 			shClass string
+			claim   string // a second vector whose entry 0 is shifted too (the previous public key the deviator CLAIMS), "" if none
 		}
 		strats := map[string][]strat{
-			"hjky":         {{1, "/verificationVector/verification_vector/data[]", "/zeroShare/value[]"}},
-			"lindell22":    {{1, "/zeroR1/verificationVector/verification_vector/data[]", "/zeroR1/zeroShare/value[]"}},
-			"redist":       {{2, "/NextVerificationVectorContribution/verification_vector/data[]", "/NextShareContribution/value[]"}},
-			"redistAnchor": {{2, "/NextVerificationVectorContribution/verification_vector/data[]", "/NextShareContribution/value[]"}},
-			"redistNew":    {{2, "/NextVerificationVectorContribution/verification_vector/data[]", "/NextShareContribution/value[]"}},
+			"hjky":      {{1, "/verificationVector/verification_vector/data[]", "/zeroShare/value[]", ""}},
+			"lindell22": {{1, "/zeroR1/verificationVector/verification_vector/data[]", "/zeroR1/zeroShare/value[]", ""}},
+			"redist": {{2, "/NextVerificationVectorContribution/verification_vector/data[]", "/NextShareContribution/value[]", ""},
+				{2, "/NextVerificationVectorContribution/verification_vector/data[]", "/NextShareContribution/value[]", "/PrevVerificationVector/verification_vector/data[]"}},
+			"redistAnchor": {{2, "/NextVerificationVectorContribution/verification_vector/data[]", "/NextShareContribution/value[]", ""},
+				{2, "/NextVerificationVectorContribution/verification_vector/data[]", "/NextShareContribution/value[]", "/PrevVerificationVector/verification_vector/data[]"}},
+			"redistNew": {{2, "/NextVerificationVectorContribution/verification_vector/data[]", "/NextShareContribution/value[]", ""}},
 		}
 		for _, stg := range strats[sc.Name] {
 			for _, dev := range all {
@@ -358,7 +361,7 @@ func main() {
 					}
 					for _, l := range t.Leaves() {
 						switch {
-						case l.Class == stg.vvClass && strings.HasSuffix(l.Path, "data[0]"):
+						case (l.Class == stg.vvClass || (stg.claim != "" && l.Class == stg.claim)) && strings.HasSuffix(l.Path, "data[0]"):
 							e, err := toy.NewGroup().FromBytes(l.Bytes)
 							if err == nil {
 								l.SetBytes(e.Op(toy.NewGroup().ScalarBaseOp(delta)).Bytes())
@@ -376,7 +379,7 @@ func main() {
 					return t.Encode(), false
 				}}
 				if *intent != "" {
-					w.Emit(map[string]any{"a": "intent", "case": caseNo, "k": fmt.Sprintf("%s:r%d:strategy:redeal", sc.Name, stg.round), "proto": sc.Name, "round": stg.round, "kind": "*", "from": uint64(dev), "to": 0, "leaf": "/strategy", "path": "/strategy", "op": "redeal"})
+					w.Emit(map[string]any{"a": "intent", "case": caseNo, "k": fmt.Sprintf("%s:r%d:strategy:%s", sc.Name, stg.round, map[bool]string{false: "redeal", true: "redealClaim"}[stg.claim != ""]), "proto": sc.Name, "round": stg.round, "kind": "*", "from": uint64(dev), "to": 0, "leaf": "/strategy", "path": "/strategy", "op": "redeal"})
 					w.Flush()
 				}
 				res := proto.Run(bt.Parties, tam, nil)
@@ -386,8 +389,8 @@ func main() {
 						comp = append(comp, id)
 					}
 				}
-				w.Emit(map[string]any{"a": "tamper", "case": caseNo, "k": fmt.Sprintf("%s:r%d:strategy:redeal", sc.Name, stg.round), "proto": sc.Name, "round": stg.round, "kind": "b",
-					"from": uint64(dev), "to": 0, "leaf": "/strategy", "path": "/strategy", "idx": -1, "op": "redeal", "changed": touched,
+				w.Emit(map[string]any{"a": "tamper", "case": caseNo, "k": fmt.Sprintf("%s:r%d:strategy:%s", sc.Name, stg.round, map[bool]string{false: "redeal", true: "redealClaim"}[stg.claim != ""]), "proto": sc.Name, "round": stg.round, "kind": "b",
+					"from": uint64(dev), "to": 0, "leaf": "/strategy", "path": "/strategy", "idx": -1, "op": map[bool]string{false: "redeal", true: "redealClaim"}[stg.claim != ""], "changed": touched,
 					"rejects": rejectsJ(res.Rejects), "completed": ids(comp), "out": bt.Outputs(comp), "stop": res.StopRound,
 					"parties": ids(all), "senderIsPrev": bt.IsPrev == nil || bt.IsPrev[dev]})
 			}
